@@ -296,18 +296,25 @@ func pgEpochToTime(pgTime int64) time.Time {
 }
 
 // inferPGVersion attempts to determine PostgreSQL major version
+//
+// PG_CONTROL_VERSION is 1201 in PostgreSQL 12 and 1300 in 13 through 16, so from 12 on the
+// major version is told by the catalog version number, which every major release bumps and
+// no minor release changes: 201909212 (12), 202007201 (13), 202107181 (14), 202209061 (15),
+// 202307071 (16).
 func inferPGVersion(controlVersion, catalogVersion uint32) int {
 	switch {
-	case controlVersion >= 1300:
-		if catalogVersion >= 202307071 {
-			return 16
-		}
-		return 15
 	case controlVersion >= 1201:
-		if catalogVersion >= 202107181 {
+		switch {
+		case catalogVersion >= 202307071:
+			return 16
+		case catalogVersion >= 202209061:
+			return 15
+		case catalogVersion >= 202107181:
 			return 14
+		case catalogVersion >= 202007201:
+			return 13
 		}
-		return 13
+		return 12
 	case controlVersion >= 1100:
 		if catalogVersion >= 201909212 {
 			return 12
